@@ -57,6 +57,9 @@ func c11Explore(c *vlib.Ctx, filter func(name string) bool, keyPrefix string, bo
 		if strings.HasPrefix(s.name, "S4") {
 			b = bound - 1 // label operations have hundreds of scheduling points per request
 		}
+		if strings.HasPrefix(s.name, "S2h") || strings.HasPrefix(s.name, "S2i") || strings.HasPrefix(s.name, "S2j") {
+			b = bound - 1 // every execution ends with a read-back of the stored metadata (found with 0 and 1 preemptions)
+		}
 		parts := 1
 		if s.quietGate {
 			parts = 14 // ~2000 executions of ~0.15 s each at deviation bound 1
